@@ -226,6 +226,21 @@ mut("C02", "wait-on-process-group", "R02-7|jobc::wait_fg_job|wait-target",
     "wait_fg_job waits on -gid: a stage that left the group is never reaped",
     (J, "        let ws = waitpidx(-1, true);", "        let ws = waitpidx(-gid, true);"))
 
+mut("C03", "sigchld-disposition-not-reset", "R03-8|main|sigchld-disposition",
+    "main no longer resets an inherited SIGCHLD=SIG_IGN (state before the repo fix)",
+    (M, """        libc::signal(libc::SIGCHLD, libc::SIG_DFL);
+""", ""))
+mut("C02", "sigchld-reset-only-interactive", "R02-8|main|sigchld-disposition|run_command_line",
+    "the SIGCHLD reset moved behind the -c / script exits",
+    (M, """        libc::signal(libc::SIGCHLD, libc::SIG_DFL);
+""", ""),
+    (M, """    let sig_handler_enabled = tools::is_signal_handler_enabled();
+""", """    unsafe {
+        libc::signal(libc::SIGCHLD, libc::SIG_DFL);
+    }
+    let sig_handler_enabled = tools::is_signal_handler_enabled();
+"""))
+
 # ------------------------------------------------------------------ C08
 mut("C08", "child-keeps-read-end", "K3c", "child keeps the read end of its own output pipe",
     (C, '''                libs::dup2(fds.1, 1);
